@@ -50,6 +50,7 @@ type c15Tx struct {
 	Name         int     // id of the tracker name (last 32 bytes of Bytes)
 	Lock         *string // amount the real decoder + VerifyLock + contract address check accept, nil = refused
 	Redeem       *string // amount the real ParseRedeem returns, nil = error
+	Ext          int     // id of the external (Ethereum) transaction these bytes were built from: re-encodings / padded copies of one transaction share it
 	RedeemPanics bool    // the real ParseRedeem panics on these bytes (no selector inside): never submitted as a redeem (C18's subject)
 }
 
@@ -292,12 +293,19 @@ func (w *c15World) setFlag(on bool) {
 
 func c15Str(s string) *string { return &s }
 
-func (w *c15World) addTx(bz []byte) int {
+func (w *c15World) addTx(bz []byte) int { return w.addTxExt(bz, 0) }
+
+// addTxExt registers a byte string; ext = 0: a new external transaction, otherwise the external
+// transaction (id) these bytes are another encoding / a padded copy of
+func (w *c15World) addTxExt(bz []byte, ext int) int {
 	k := hex.EncodeToString(bz)
 	if id, ok := w.txByHex[k]; ok {
 		return id
 	}
-	t := c15Tx{ID: len(w.txs) + 1, Bytes: bz, Name: w.nameOf(bz)}
+	t := c15Tx{ID: len(w.txs) + 1, Bytes: bz, Name: w.nameOf(bz), Ext: ext}
+	if ext == 0 {
+		t.Ext = t.ID
+	}
 	// oracle: the real decoding functions of chains/ethereum
 	func() {
 		defer func() { recover() }()
@@ -324,6 +332,10 @@ func (w *c15World) addTx(bz []byte) int {
 		}()
 		rr, err := ethchain.ParseRedeem(bz, contract.LockRedeemABI)
 		if err != nil {
+			return
+		}
+		// runRedeem (since /repo dec611a) first requires the strict decoder to accept the bytes
+		if _, err := ethchain.DecodeTransaction(bz); err != nil {
 			return
 		}
 		t.Redeem = c15Str(rr.Amount.String())
@@ -360,13 +372,34 @@ func c15RedeemSelector() string {
 	panic("no redeem selector")
 }
 
+// a signed Ethereum transaction calling redeem(amount) on the lock-redeem contract; the S value
+// (= the last 32 bytes = the tracker name) is chosen by tail
 func c15RedeemBytes(amount *big.Int, tail int64) []byte {
+	return c15RedeemBytesS(amount, c15S(tail), uint64(tail))
+}
+
+func c15RedeemBytesS(amount *big.Int, s *big.Int, nonce uint64) []byte {
 	sel, _ := hex.DecodeString(c15RedeemSelector())
 	a := make([]byte, 32)
 	amount.FillBytes(a)
-	bz := append([]byte{0xf8, 0x01}, sel...)
-	bz = append(bz, a...)
-	return append(bz, c15S(tail).Bytes()...)
+	return c15LockBytes(big.NewInt(0), c15Contract, append(sel, a...), nonce, s)
+}
+
+// byte strings that are NOT identical to raw but carry the same external transaction: trailing
+// bytes, a leading zero byte, a non-minimal RLP length prefix, one more RLP string wrapper
+func c15Variants(raw []byte) [][]byte {
+	cat := func(a, b []byte) []byte { return append(append([]byte{}, a...), b...) }
+	pad32 := bytes.Repeat([]byte{0x5c}, 32)
+	out := [][]byte{cat(raw, []byte{0}), cat(raw, pad32), cat(raw, append(pad32, bytes.Repeat([]byte{0x11}, 32)...)), cat([]byte{0}, raw)}
+	if len(raw) > 2 && raw[0] == 0xf8 {
+		out = append(out, cat([]byte{0xf9, 0x00, raw[1]}, raw[2:]))
+	} else if len(raw) > 1 && raw[0] >= 0xc0 && raw[0] < 0xf8 {
+		out = append(out, cat([]byte{0xf8, raw[0] - 0xc0}, raw[1:]))
+	}
+	if wr, err := rlp.EncodeToBytes(raw); err == nil {
+		out = append(out, wr)
+	}
+	return out
 }
 
 // ---------- observation ----------
@@ -582,16 +615,11 @@ func (w *c15World) run(r *rand.Rand) {
 		bz, _ := hex.DecodeString(w.nameHex[name-1])
 		s := new(big.Int).SetBytes(bz)
 		v := big.NewInt(amounts[r.Intn(len(amounts))] + 3)
-		if redeem {
-			sel, _ := hex.DecodeString(c15RedeemSelector())
-			a := make([]byte, 32)
-			v.FillBytes(a)
-			x := append([]byte{0xf8, 0x02}, sel...)
-			x = append(x, a...)
-			return w.addTx(append(x, bz...))
-		}
 		if bz[0] == 0 {
 			return 0
+		}
+		if redeem {
+			return w.addTx(c15RedeemBytesS(v, s, uint64(r.Intn(1000))))
 		}
 		return w.addTx(c15LockBytes(v, c15Contract, c15LockData, uint64(r.Intn(1000)), s))
 	}
@@ -654,7 +682,24 @@ func (w *c15World) run(r *rand.Rand) {
 				} else {
 					w.doLock(s, l.tx)
 				}
-			case x < 35 && len(live) > 0: // another external transaction with the same name
+			case x < 33 && len(live) > 0: // the SAME external transaction in a byte string that is not identical
+				l := live[r.Intn(len(live))]
+				base := w.txs[l.tx-1]
+				vs := c15Variants(base.Bytes)
+				t := w.addTxExt(vs[r.Intn(len(vs))], base.Ext)
+				s := l.owner
+				if r.Intn(3) == 0 {
+					s = 1 + r.Intn(len(w.users))
+				}
+				if l.redeem {
+					w.doRedeem(s, t)
+				} else {
+					w.doLock(s, t)
+				}
+				if w.c.Obs[len(w.c.Obs)-1].Ok {
+					live = append(live, c15Live{w.txs[t-1].Name, t, s, l.redeem})
+				}
+			case x < 36 && len(live) > 0: // another external transaction with the same name
 				l := live[r.Intn(len(live))]
 				red := r.Intn(2) == 0
 				t := collide(l.name, red)
@@ -852,7 +897,7 @@ func c15CoqObs(prev, o c15Obs) string {
 func c15CoqCase(c c15Case) string {
 	txs := make([]string, len(c.Txs))
 	for i, t := range c.Txs {
-		txs[i] = fmt.Sprintf("(%s, {| x_name := %s; x_lock := %s; x_redeem := %s |})", c15N(t.ID), c15N(t.Name), c15OptZ(t.Lock), c15OptZ(t.Redeem))
+		txs[i] = fmt.Sprintf("(%s, {| x_name := %s; x_ext := %s; x_lock := %s; x_redeem := %s |})", c15N(t.ID), c15N(t.Name), c15N(t.Ext), c15OptZ(t.Lock), c15OptZ(t.Redeem))
 	}
 	ops := make([]string, len(c.Ops))
 	obs := make([]string, len(c.Obs))
@@ -924,7 +969,7 @@ type c15Script struct {
 	Steps []c15ScriptStep
 }
 type c15ScriptStep struct {
-	Kind                    string // locktx redeemtx lock redeem report transfer endblock flag
+	Kind                    string // locktx redeemtx varianttx lock redeem report transfer endblock flag
 	Sender, Tx              int
 	Amount                  string
 	Tail                    int64
@@ -953,6 +998,10 @@ func c15RunScript(sc c15Script) c15Case {
 		case "redeemtx":
 			v, _ := new(big.Int).SetString(s.Amount, 10)
 			w.addTx(c15RedeemBytes(v, s.Tail))
+		case "varianttx": // a non-identical byte string carrying the external transaction of tx s.Tx (index s.Index into c15Variants)
+			base := w.txs[s.Tx-1]
+			vs := c15Variants(base.Bytes)
+			w.addTxExt(vs[int(s.Index)%len(vs)], base.Ext)
 		case "lock":
 			begin()
 			w.doLock(s.Sender, s.Tx)
@@ -1283,6 +1332,17 @@ func c15ERCLockBytes(amount int64, nonce uint64, tail int64) []byte {
 	return c15LockBytes(big.NewInt(0), c15Token, data, nonce, c15S(tail))
 }
 
+// a signed Ethereum transaction calling redeem(amount, token) on the ERC lock-redeem contract
+func c15ERCRedeemBytes(amount int64, tail int64) []byte {
+	data := ethcommon.FromHex("7bde82f2")
+	a := make([]byte, 32)
+	big.NewInt(amount).FillBytes(a)
+	tok := make([]byte, 32)
+	copy(tok[12:], c15Token.Bytes())
+	data = append(append(data, a...), tok...)
+	return c15LockBytes(big.NewInt(0), c15Contract, data, uint64(tail), c15S(tail))
+}
+
 type c15ERCStep struct {
 	Do      string            `json:"do"`
 	Ok      bool              `json:"ok"`
@@ -1291,6 +1351,7 @@ type c15ERCStep struct {
 	Stores  string            `json:"tracker_stores"`
 	Ongoing []c15Tracker      `json:"ongoing"`
 	Passed  []c15Tracker      `json:"passed"`
+	Failed  []c15Tracker      `json:"failed"`
 	TxHex   string            `json:"tx_hex,omitempty"`
 }
 
@@ -1321,7 +1382,7 @@ func (w *c15World) stores() string {
 }
 
 func c15ERCScenario(title string, script func(w *c15World, step func(do string, tx []byte))) map[string]interface{} {
-	w := c15NewWorld(c15Cfg{NWit: 4, Cap: 1000000, Seed: 1, FlagFrom: -1, ERC: true})
+	w := c15NewWorld(c15Cfg{NWit: 4, Cap: 1000000, Seed: 1, FlagFrom: -1, ERC: true, TTCInit: 1000})
 	defer w.rep.Close()
 	steps := []c15ERCStep{}
 	w.rep.BeginBlock(&BlockIn{})
@@ -1331,12 +1392,12 @@ func c15ERCScenario(title string, script func(w *c15World, step func(do string, 
 			w.rep.Commit()
 			w.rep.BeginBlock(&BlockIn{})
 			o := w.observe(true)
-			steps = append(steps, c15ERCStep{Do: do, Ok: true, TTC: w.ttc(), Stores: w.stores(), Ongoing: o.Ongoing, Passed: o.Passed})
+			steps = append(steps, c15ERCStep{Do: do, Ok: true, TTC: w.ttc(), Stores: w.stores(), Ongoing: o.Ongoing, Passed: o.Passed, Failed: o.Failed})
 			return
 		}
 		res := w.rep.DeliverTx(tx)
 		o := w.observe(res.Code == 0)
-		steps = append(steps, c15ERCStep{Do: do, Ok: res.Code == 0, Log: res.Log, TTC: w.ttc(), Stores: w.stores(), Ongoing: o.Ongoing, Passed: o.Passed, TxHex: hex.EncodeToString(tx)})
+		steps = append(steps, c15ERCStep{Do: do, Ok: res.Code == 0, Log: res.Log, TTC: w.ttc(), Stores: w.stores(), Ongoing: o.Ongoing, Passed: o.Passed, Failed: o.Failed, TxHex: hex.EncodeToString(tx)})
 	}
 	script(w, step)
 	return map[string]interface{}{"scenario": title, "steps": steps, "final_ttc": w.ttc(), "final_stores": w.stores()}
@@ -1382,6 +1443,56 @@ func c15ERCProbe(path string) int {
 		step("end of block", nil)
 		for i := 0; i < 3; i++ {
 			step(fmt.Sprintf("witness %d reports success", i), report(w, i, 2))
+		}
+		step("end of block", nil)
+		step("end of block", nil)
+	}))
+	lockRaw := func(w *c15World, by int, raw []byte) []byte {
+		k := w.idKey[by]
+		w.addTx(raw)
+		return mkTx(action.ERC20_LOCK, acteth.ERC20Lock{Locker: k.Addr, ETHTxn: raw}, GAS, fmt.Sprintf("erc-%d-%d", by, rand.Intn(1<<30)), k)
+	}
+	redeemRaw := func(w *c15World, by int, raw []byte) []byte {
+		k := w.idKey[by]
+		w.addTx(raw)
+		return mkTx(action.ERC20_REDEEM, acteth.ERC20Redeem{Owner: k.Addr, To: ethcommon.BytesToAddress(k.Addr), ETHTxn: raw}, GAS, fmt.Sprintf("ercr-%d-%d", by, rand.Intn(1<<30)), k)
+	}
+	reportOn := func(w *c15World, raw []byte, wi int, locker int, success bool) []byte {
+		k := w.idKey[20+wi]
+		var tn ethchain.TrackerName
+		tn.SetBytes(ethcommon.BytesToHash(raw).Bytes())
+		m := &acteth.ReportFinality{TrackerName: tn, Locker: w.idAddr[locker], ValidatorAddress: k.Addr, VoteIndex: int64(wi), Success: success}
+		return mkTx(action.ETH_REPORT_FINALITY_MINT, m, GAS, fmt.Sprintf("r-%d-%d", wi, rand.Intn(1<<30)), k)
+	}
+	out = append(out, c15ERCScenario("C: the same ERC-20 lock transaction in byte strings that are not identical (trailing bytes, leading zero, non-minimal length, wrapped)", func(w *c15World, step func(string, []byte)) {
+		step("ERC20_LOCK of external tx X by account 1", lockRaw(w, 1, ext))
+		for i, v := range c15Variants(ext) {
+			step(fmt.Sprintf("ERC20_LOCK of the SAME external tx X, variant %d", i), lockRaw(w, 1, v))
+		}
+		step("end of block", nil)
+	}))
+	rext := c15ERCRedeemBytes(100, 4343)
+	out = append(out, c15ERCScenario("D: the same ERC-20 redeem transaction in byte strings that are not identical: each accepted copy debits the owner again", func(w *c15World, step func(string, []byte)) {
+		step("ERC20_REDEEM of external tx R (redeem 100 TTC) by account 2", redeemRaw(w, 2, rext))
+		for i, v := range c15Variants(rext) {
+			step(fmt.Sprintf("ERC20_REDEEM of the SAME external tx R, variant %d", i), redeemRaw(w, 2, v))
+		}
+		step("end of block", nil)
+	}))
+	out = append(out, c15ERCScenario("E: an ERC-20 redeem that more than two thirds of the witnesses report as failed is failed, archived and refunded", func(w *c15World, step func(string, []byte)) {
+		step("ERC20_REDEEM of external tx R (redeem 100 TTC) by account 2", redeemRaw(w, 2, rext))
+		step("end of block", nil)
+		for i := 0; i < 4; i++ {
+			step(fmt.Sprintf("witness %d reports failure", i), reportOn(w, rext, i, 2, false))
+		}
+		step("end of block", nil)
+		step("end of block", nil)
+	}))
+	out = append(out, c15ERCScenario("F: an ERC-20 lock that more than two thirds of the witnesses report as failed is failed and archived (nothing minted)", func(w *c15World, step func(string, []byte)) {
+		step("ERC20_LOCK of external tx X by account 1", lockRaw(w, 1, ext))
+		step("end of block", nil)
+		for i := 0; i < 4; i++ {
+			step(fmt.Sprintf("witness %d reports failure", i), reportOn(w, ext, i, 1, false))
 		}
 		step("end of block", nil)
 		step("end of block", nil)
